@@ -5,7 +5,7 @@ LEVEL = "exploration"
 
 def run(res, tier):
     res.assumptions += [
-        "displacements |offset| <= n/2-2 cells (the range the per-row offset table represents; larger kicks are 'beyond the grid' and only covered for memory safety, C17)",
+        "displacements from the alphabet in harness/inov.hpp: whole, fractional, tiny, near-whole, half the grid and more, beyond the grid (nothing is interior then and nothing is judged)",
         "source and destination cells of the tested impulses lie in [1, n-2] ('clear of the grid border')",
         "rows are independent (checked differentially by C08); FP interior columns are 4 .. n-5",
         "OpenCL paths compiled out"]
